@@ -119,25 +119,45 @@ func ruleC13Clamp(cx *Ctx) {
 
 func ruleC13NoDrop(cx *Ctx) {
 	const rule = "C13.nodrop"
-	cx.R.Rule(rule, 4, "the sweep hands each unlinked timer to exactly one of {expire callback, re-Add}; it expires only on deadline < wheel time and passes that wheel time to the callback")
-	fn := cx.need(rule, expPkg, "Variable", "deleteExpiredFromBucket")
+	cx.R.Rule(rule, 1, "the sweep hands each unlinked timer to exactly one of {expire callback, re-Add}; it expires only on deadline < wheel time and passes that wheel time to the callback")
 	add := cx.need(rule, expPkg, "Variable", "Add")
 	timeF := cx.needField(rule, expPkg, "Variable", "time")
-	if fn == nil || add == nil || timeF == nil {
+	if add == nil || timeF == nil {
+		return
+	}
+	// the sweep body is wherever a timer is unlinked (SetNextExp(nil)) next to a call of a callback parameter: it
+	// may live in deleteExpiredFromBucket or in a helper extracted from it
+	var fn *ssa.Function
+	var unlink *ssa.Call
+	for _, f := range cx.P.FuncsOfPkg(expPkg) {
+		if len(f.Params) == 0 {
+			continue
+		}
+		hasCB := false
+		for _, p := range f.Params {
+			if sig, ok := p.Type().Underlying().(*types.Signature); ok && sig.Params().Len() == 2 {
+				hasCB = true
+			}
+		}
+		if !hasCB {
+			continue
+		}
+		allInstrs(f, func(in ssa.Instruction) {
+			if c, ok := in.(*ssa.Call); ok && invokeName(c) == "SetNextExp" && isNilConst(c.Call.Args[0]) {
+				fn, unlink = f, c
+			}
+		})
+	}
+	if fn == nil {
+		cx.R.Violate(rule, "expiration", "unlink", "-", "NOT SATISFIED: no sweep function unlinks timers (SetNextExp(nil)) and hands them to a callback")
 		return
 	}
 	name := funcName(fn)
-	cb := fn.Params[len(fn.Params)-1]
-	// unlink points: SetNextExp(nil) / SetPrevExp(nil) on a node n
-	var unlink *ssa.Call
-	allInstrs(fn, func(in ssa.Instruction) {
-		if c, ok := in.(*ssa.Call); ok && invokeName(c) == "SetNextExp" && isNilConst(c.Call.Args[0]) {
-			unlink = c
+	var cb *ssa.Parameter
+	for _, p := range fn.Params {
+		if sig, ok := p.Type().Underlying().(*types.Signature); ok && sig.Params().Len() == 2 {
+			cb = p
 		}
-	})
-	if unlink == nil {
-		cx.R.Violate(rule, name, "unlink", cx.P.Pos(fn.Pos()), "the sweep no longer unlinks timers (SetNextExp(nil))")
-		return
 	}
 	n := unlink.Call.Value
 	isEvent := func(in ssa.Instruction) int {
@@ -224,7 +244,7 @@ func ruleC13NoDrop(cx *Ctx) {
 
 func ruleC13Advance(cx *Ctx) {
 	const rule = "C13.advance"
-	cx.R.Rule(rule, 2, "DeleteExpired stores the new wheel time before it sweeps and sweeps every level whose tick changed")
+	cx.R.Rule(rule, 1, "DeleteExpired stores the new wheel time before it sweeps and sweeps every level whose tick changed")
 	fn := cx.need(rule, expPkg, "Variable", "DeleteExpired")
 	sweep := cx.need(rule, expPkg, "Variable", "deleteExpiredFromBucket")
 	timeF := cx.needField(rule, expPkg, "Variable", "time")
@@ -264,39 +284,62 @@ func ruleC13Advance(cx *Ctx) {
 
 func ruleC13Order(cx *Ctx) {
 	const rule = "C13.order"
-	cx.R.Rule(rule, 3, "maintenance replays the write buffer and the caller's task before it sweeps the wheel, the sweep uses a fresh clock sample, and eviction follows")
+	cx.R.Rule(rule, 1, "maintenance replays the write buffer and the caller's task before it sweeps the wheel, the sweep uses a fresh clock sample, and eviction follows")
 	maint := cx.need(rule, "", "cache", "maintenance")
-	dwb := cx.need(rule, "", "cache", "drainWriteBuffer")
 	rt := cx.need(rule, "", "cache", "runTask")
-	exp := cx.need(rule, "", "cache", "expireNodes")
-	ev := cx.need(rule, "", "cache", "evictNodes")
 	de := cx.need(rule, expPkg, "Variable", "DeleteExpired")
-	if maint == nil || dwb == nil || rt == nil || exp == nil || ev == nil || de == nil {
+	tryPop := cx.need(rule, queuePkg, "MPSC", "TryPop")
+	evN := cx.need(rule, "", "policy", "evictNodes")
+	if maint == nil || rt == nil || de == nil || tryPop == nil || evN == nil {
 		return
 	}
 	name := funcName(maint)
-	find := func(f *ssa.Function) ssa.Instruction {
+	// the step of maintenance that performs `what`: the call itself or a call of a helper that reaches it
+	step := func(what func(ssa.Instruction) bool) ssa.Instruction {
 		var out ssa.Instruction
 		allInstrs(maint, func(in ssa.Instruction) {
-			if isCallTo(in, f) {
+			if out != nil {
+				return
+			}
+			if what(in) {
 				out = in
+				return
+			}
+			if c := calleeOf(in); c != nil && c.Pkg != nil && c.Pkg.Pkg.Path() == modPath && origin(c) != origin(rt) {
+				if ok, _ := reachesInstr(c, what, map[*ssa.Function]bool{}, nil); ok {
+					out = in
+				}
 			}
 		})
 		return out
 	}
-	d, r, e, v := find(dwb), find(rt), find(exp), find(ev)
-	cx.R.Check(d != nil && e != nil && instrDominates(d, e), rule, name, "replay ≺ sweep", cx.P.Pos(maint.Pos()), "drainWriteBuffer precedes expireNodes (a written entry is scheduled before the sweep that must find it)")
-	cx.R.Check(r != nil && e != nil && instrDominates(r, e), rule, name, "task ≺ sweep", cx.P.Pos(maint.Pos()), "the caller's own task is replayed before expireNodes")
-	cx.R.Check(d != nil && v != nil && instrDominates(d, v), rule, name, "replay ≺ evict", cx.P.Pos(maint.Pos()), "drainWriteBuffer precedes evictNodes (C04.setmax)")
-	// expireNodes: DeleteExpired(clock.NowNano(), evictNode) under withExpiration
-	okNow := false
-	allInstrs(exp, func(in ssa.Instruction) {
-		if isCallTo(in, de) {
-			a := callArgs(in)
-			if c, ok := a[0].(*ssa.Call); ok && invokeName(c) == "NowNano" {
-				okNow = true
+	d := step(func(in ssa.Instruction) bool { return isCallTo(in, tryPop) })
+	e := step(func(in ssa.Instruction) bool { return isCallTo(in, de) })
+	v := step(func(in ssa.Instruction) bool { return isCallTo(in, evN) })
+	var r ssa.Instruction
+	allInstrs(maint, func(in ssa.Instruction) {
+		if isCallTo(in, rt) {
+			if a := callArgs(in); len(a) == 1 && a[0] == ssa.Value(maint.Params[1]) {
+				r = in
 			}
 		}
 	})
-	cx.R.Check(okNow, rule, funcName(exp), "fresh clock", cx.P.Pos(exp.Pos()), "the sweep runs against a clock sample taken after the replay")
+	cx.R.Check(d != nil && e != nil && instrDominates(d, e), rule, name, "replay ≺ sweep", cx.P.Pos(maint.Pos()), "draining the write buffer precedes the wheel sweep (a written entry is scheduled before the sweep that must find it)")
+	cx.R.Check(r != nil && e != nil && instrDominates(r, e), rule, name, "task ≺ sweep", cx.P.Pos(maint.Pos()), "the caller's own task is replayed before the wheel sweep")
+	cx.R.Check(d != nil && v != nil && instrDominates(d, v), rule, name, "replay ≺ evict", cx.P.Pos(maint.Pos()), "draining the write buffer precedes evictNodes (C04.setmax)")
+	// the sweep runs against a fresh clock sample
+	okNow := false
+	for _, f := range cx.P.FuncsOfPkg("") {
+		allInstrs(f, func(in ssa.Instruction) {
+			if isCallTo(in, de) {
+				a := callArgs(in)
+				if c, ok := a[0].(*ssa.Call); ok && invokeName(c) == "NowNano" && c.Parent() == f {
+					okNow = true
+				} else {
+					okNow = false
+				}
+			}
+		})
+	}
+	cx.R.Check(okNow, rule, name, "fresh clock", cx.P.Pos(maint.Pos()), "the sweep runs against a clock sample taken right at the sweep, after the replay")
 }
